@@ -348,6 +348,10 @@ class Env(object):
         out = call.get('outcome_override') or ispec.outcomes.get(key)
         if out is None:
             out = ('value', ('unplanned', ispec.alias))
+        if out[0] == 'raise_payload':
+            ex = D.ErrPayload(copy.deepcopy(out[1]))
+            call['raised'] = ex
+            raise ex
         if out[0] == 'raise':
             ex = out[1]()
             call['raised'] = ex
@@ -775,7 +779,11 @@ class Interp(object):
         except Exception as ex:
             svc.checks.append(CallCheck('in', ispec.alias, tname, call.get('bodies', 0), None,
                                         ex is call.get('raised'), call.get('args_identical'), origin_note(ex)))
-            obs.append(['in', ispec.alias, 'raised', type(ex).__name__])
+            if isinstance(ex, D.ErrPayload):
+                obs.append(['in', ispec.alias, 'raised', type(ex).__name__, copy.deepcopy(ex.payload)])
+                svc.last_value = ex.payload       # the service may go on to modify what the error carried
+            else:
+                obs.append(['in', ispec.alias, 'raised', type(ex).__name__])
             return
         svc.checks.append(CallCheck('in', ispec.alias, tname, call.get('bodies', 0),
                                     call.get('returned_set', False) and ret is call.get('returned'), None,
